@@ -59,45 +59,96 @@ func readRules(c *Ctx) {
 	R.Rule("R02c", "E3", "encoding label = encoding delivered: Compressor_ZSTD / Content-Encoding: zstd is set exactly on the paths whose bytes came from Cache.GetZstd", 4)
 
 	if fi := c.P.MustFunc(R, "R02a", "server.(*grpcServer).Read"); fi != nil {
-		// locals by role: the request is the first parameter; the budget is the local assigned
-		// from its ReadLimit field; the switch is the bool local defined from ReadLimit != 0
-		reqName, limName, budgetName := "req", "limitedSend", "sendLimitRemaining"
-		if po := paramObj(fi, 0); po != nil {
-			reqName = po.Name()
+		info := fi.Pkg.TypesInfo
+		// locals by role: the request is the first parameter; the budget is the local assigned from
+		// its ReadLimit field; the switch is the bool local whose definition tests ReadLimit
+		reqObj := paramObj(fi, 0)
+		isReadLimit := func(e ast.Expr) bool {
+			sel, ok := ast.Unparen(e).(*ast.SelectorExpr)
+			return ok && sel.Sel.Name == "ReadLimit" && reqObj != nil && identObj(info, sel.X) == reqObj
 		}
+		var limObj, budgetObj types.Object
+		limDefOK := false
 		ast.Inspect(fi.Decl.Body, func(n ast.Node) bool {
-			if as, ok := n.(*ast.AssignStmt); ok && len(as.Lhs) == 1 && len(as.Rhs) == 1 {
-				id, isID := as.Lhs[0].(*ast.Ident)
-				if !isID {
+			as, ok := n.(*ast.AssignStmt)
+			if !ok || len(as.Lhs) != 1 || len(as.Rhs) != 1 {
+				return true
+			}
+			o := identObj(info, as.Lhs[0])
+			if o == nil {
+				return true
+			}
+			if isReadLimit(as.Rhs[0]) {
+				budgetObj = o
+			}
+			if isBoolType(o.Type()) {
+				neq0, identity := false, false
+				ast.Inspect(as.Rhs[0], func(m ast.Node) bool {
+					if be, ok := m.(*ast.BinaryExpr); ok {
+						l, r := be.X, be.Y
+						if isReadLimit(r) {
+							l, r = r, l
+						}
+						if k, isC := constInt(info, r); isReadLimit(l) && isC && k == 0 && be.Op == token.NEQ {
+							neq0 = true
+						}
+						if be.Op == token.EQL {
+							for _, side := range []ast.Expr{be.X, be.Y} {
+								if sel, ok := ast.Unparen(side).(*ast.SelectorExpr); ok && sel.Sel.Name == "Identity" {
+									identity = true
+								}
+							}
+						}
+					}
 					return true
-				}
-				r := strings.ReplaceAll(exprStr(as.Rhs[0]), " ", "")
-				if r == reqName+".ReadLimit" {
-					budgetName = id.Name
-				}
-				if strings.Contains(r, reqName+".ReadLimit!=0") {
-					limName = id.Name
+				})
+				if neq0 {
+					limObj = o
+					limDefOK = identity
 				}
 			}
 			return true
 		})
 		var base *Base
 		nsend := 0
+		// the test that a chunk of n bytes fits the remaining budget b, in any spelling:
+		// (b - n) < 0, n > b, b < n  (all mean "does not fit")
+		fitTest := func(x *Exec, cond ast.Expr, s St) (string, string, bool) {
+			be, ok := ast.Unparen(cond).(*ast.BinaryExpr)
+			if !ok {
+				return "", "", false
+			}
+			if k, isC := constInt(x.Fn.Info, be.Y); isC && k == 0 && be.Op == token.LSS {
+				if sub, ok := ast.Unparen(be.X).(*ast.BinaryExpr); ok && sub.Op == token.SUB {
+					lt, ok1 := base.Term(x, sub.X, s)
+					nt, ok2 := base.Term(x, sub.Y, s)
+					return lt, nt, ok1 && ok2
+				}
+				return "", "", false
+			}
+			var bE, nE ast.Expr
+			switch be.Op {
+			case token.GTR:
+				nE, bE = be.X, be.Y
+			case token.LSS:
+				bE, nE = be.X, be.Y
+			default:
+				return "", "", false
+			}
+			lt, ok1 := base.Term(x, bE, s)
+			nt, ok2 := base.Term(x, nE, s)
+			if !ok1 || !ok2 || budgetObj == nil || lt != objID(budgetObj) {
+				return "", "", false
+			}
+			return lt, nt, true
+		}
 		base = NewBase(Hooks{
 			Cond: func(x *Exec, cond ast.Expr, truth bool, s St) ([]St, bool) {
-				// (sendLimitRemaining - int64(n)) < 0
-				be, ok := ast.Unparen(cond).(*ast.BinaryExpr)
-				if ok && be.Op == token.LSS && exprStr(be.Y) == "0" {
-					if sub, ok := ast.Unparen(be.X).(*ast.BinaryExpr); ok && sub.Op == token.SUB {
-						lt, ok1 := base.Term(x, sub.X, s)
-						nt, ok2 := base.Term(x, sub.Y, s)
-						if ok1 && ok2 {
-							if truth {
-								return []St{s}, true
-							}
-							return []St{s.Set("limitok", lt+"|"+nt)}, true
-						}
+				if lt, nt, ok := fitTest(x, cond, s); ok {
+					if truth {
+						return []St{s}, true
 					}
+					return []St{s.Set("limitok", lt+"|"+nt)}, true
 				}
 				return nil, false
 			},
@@ -109,11 +160,13 @@ func readRules(c *Ctx) {
 						s = s.Set("deducted", nt)
 					}
 				}
-				if len(as.Lhs) == 1 && strings.HasSuffix(exprStr(as.Lhs[0]), ".Data") {
-					// chunkResp.Data = buf[:n]
-					if se, ok := ast.Unparen(as.Rhs[0]).(*ast.SliceExpr); ok && se.High != nil {
-						if nt, ok := base.Term(x, se.High, s); ok {
-							s = s.Set("sendn", nt)
+				if len(as.Lhs) == 1 {
+					if sel, ok := ast.Unparen(as.Lhs[0]).(*ast.SelectorExpr); ok && sel.Sel.Name == "Data" {
+						// chunkResp.Data = buf[:n]
+						if se, ok := ast.Unparen(as.Rhs[0]).(*ast.SliceExpr); ok && se.High != nil {
+							if nt, ok := base.Term(x, se.High, s); ok {
+								s = s.Set("sendn", nt)
+							}
 						}
 					}
 				}
@@ -122,47 +175,39 @@ func readRules(c *Ctx) {
 			Assign: func(x *Exec, as *ast.AssignStmt, s St) []St {
 				// n, err := rc.Read(buf): a new chunk
 				if len(as.Rhs) == 1 {
-					if call, ok := as.Rhs[0].(*ast.CallExpr); ok && strings.HasSuffix(exprStr(call.Fun), ".Read") && len(as.Lhs) == 2 {
-						s = s.Set("limitok", "").Set("deducted", "").Set("sendn", "")
+					if call, ok := as.Rhs[0].(*ast.CallExpr); ok && len(as.Lhs) == 2 {
+						if sel, ok := call.Fun.(*ast.SelectorExpr); ok && sel.Sel.Name == "Read" {
+							s = s.Set("limitok", "").Set("deducted", "").Set("sendn", "")
+						}
 					}
 				}
 				return []St{s}
 			},
 			EveryCall: func(x *Exec, call *ast.CallExpr, s St) []St {
-				if sel, ok := call.Fun.(*ast.SelectorExpr); ok && sel.Sel.Name == "Send" && identObj(x.Fn.Info, sel.X) != nil && identObj(x.Fn.Info, sel.X) == paramObj(fi, 1) && inLoopStmt(x.Fn.Body, call) {
-					nsend++
-					lim := ""
-					for k, v := range s.m {
-						if strings.HasPrefix(k, "b:"+limName+"@") {
-							lim = v
-						}
-					}
-					n := s.Get("sendn")
-					ok := lim == "false" || (s.Get("deducted") != "" && s.Get("deducted") == n && strings.HasSuffix(s.Get("limitok"), "|"+n))
-					R.Check(ok, "R02a", c.Cfg+"server.(*grpcServer).Read:loop-send", c.P.Pos(call.Pos()), "with a read limit, the chunk sent was first tested against and deducted from the remaining budget",
-						fmt.Sprintf("a chunk can be sent without the limit test / deduction (limited=%s tested=%q deducted=%q sent=%q)", lim, s.Get("limitok"), s.Get("deducted"), n), x.Trace()...)
+				sel, ok := call.Fun.(*ast.SelectorExpr)
+				if !ok || sel.Sel.Name != "Send" || !inLoopStmt(x.Fn.Body, call) {
+					return []St{s}
 				}
+				if t := x.Fn.Info.TypeOf(sel.X); t == nil || !strings.HasSuffix(t.String(), "ByteStream_ReadServer") {
+					return []St{s}
+				}
+				nsend++
+				lim := ""
+				if limObj != nil {
+					lim = s.Get("b:" + objID(limObj))
+				}
+				n := s.Get("sendn")
+				ok = lim == "false" || (s.Get("deducted") != "" && s.Get("deducted") == n && strings.HasSuffix(s.Get("limitok"), "|"+n))
+				R.Check(ok, "R02a", c.Cfg+"server.(*grpcServer).Read:loop-send", c.P.Pos(call.Pos()), "with a read limit, the chunk sent was first tested against and deducted from the remaining budget",
+					fmt.Sprintf("a chunk can be sent without the limit test / deduction (limited=%s tested=%q deducted=%q sent=%q)", lim, s.Get("limitok"), s.Get("deducted"), n), x.Trace()...)
 				return []St{s}
 			},
 		})
+		base.InlineOwnHelpers()
 		x := NewExec(c.P.FlowOf(fi), base)
 		x.Run(newSt())
 		R.Check(nsend > 0, "R02a", c.Cfg+"server.(*grpcServer).Read:has-send", "", "the read loop's Send was found", "no Send in a loop found")
-		// limitedSend and the budget are what the request says
-		okDef := 0
-		ast.Inspect(fi.Decl.Body, func(n ast.Node) bool {
-			if as, ok := n.(*ast.AssignStmt); ok && len(as.Lhs) == 1 {
-				l, r := exprStr(as.Lhs[0]), strings.ReplaceAll(exprStr(as.Rhs[0]), " ", "")
-				if l == limName && strings.HasPrefix(r, "("+reqName+".ReadLimit!=0)&&") && strings.HasSuffix(r, "==casblob.Identity") {
-					okDef++
-				}
-				if l == budgetName && r == reqName+".ReadLimit" {
-					okDef++
-				}
-			}
-			return true
-		})
-		R.Check(okDef == 2, "R02a", c.Cfg+"server.(*grpcServer).Read:limit-definitions", c.P.Pos(fi.Decl.Pos()), "the limit applies iff read_limit != 0 on an identity read, with read_limit as the budget", "limitedSend / sendLimitRemaining are not defined from req.ReadLimit as expected")
+		R.Check(limObj != nil && limDefOK && budgetObj != nil, "R02a", c.Cfg+"server.(*grpcServer).Read:limit-definitions", c.P.Pos(fi.Decl.Pos()), "the limit applies iff read_limit != 0 on an identity read, with read_limit as the budget", "the limit switch / the budget are not defined from the request's ReadLimit as expected")
 	}
 
 	// R02b (disk): the empty-blob shortcut is a guard made of nothing but the
